@@ -50,7 +50,27 @@ class Spy:
 
             def heuristic(self, weight):
                 self.heuristic_calls = getattr(self, 'heuristic_calls', []) + [('weight', np.array(weight, dtype=float))]
-                return super().heuristic(weight)
+                out = super().heuristic(weight)
+                # the objective installed by the heuristic is the documented one: a function of the Gram matrix only, equal to <W, G> (probed at a random PSD matrix)
+                try:
+                    expr = self.prob.objective.args[0]
+                    others = [v for v in expr.variables() if v is not self.G]
+                    saved = [(v, v.value) for v in expr.variables()]
+                    rs = np.random.RandomState(len(self.heuristic_calls))
+                    n = self.G.shape[0]
+                    A = rs.randn(n, n)
+                    self.G.value = A @ A.T
+                    for v in others:
+                        B = rs.randn(*v.shape) if v.shape else rs.randn()
+                        v.value = (B @ B.T) if (len(v.shape) == 2 and v.shape[0] == v.shape[1]) else B
+                    got, want = float(expr.value), float(np.sum(np.array(weight, dtype=float) * (A @ A.T)))
+                    for v, val in saved:
+                        v.value = val
+                    ok = not others and abs(got - want) <= 1e-8 * (1 + abs(want))
+                    self.heuristic_objective = getattr(self, 'heuristic_objective', []) + [(ok, len(others), got, want)]
+                except Exception as e:       # noqa  (an objective of another shape: recorded, judged by the scenario)
+                    self.heuristic_objective = getattr(self, 'heuristic_objective', []) + [(False, -1, repr(e)[:80], None)]
+                return out
         self._old = pepmod.WRAPPERS['cvxpy']
         pepmod.WRAPPERS['cvxpy'] = SpyWrapper
         return self
